@@ -21,14 +21,14 @@ use std::sync::Arc;
 /// tolerances (relative), calibrated on the pinned tree; see notes/C17.md
 pub fn tol_adj(kind: GridKind) -> f64 {
     match kind {
-        GridKind::Cartesian | GridKind::Cartesian2 | GridKind::Cartesian3 => 1e-12,
+        GridKind::Cartesian | GridKind::Cartesian2 | GridKind::Cartesian3 | GridKind::Periodical2 | GridKind::Periodical3 => 1e-12,
         GridKind::Spherical => 5e-3,
         GridKind::Polar | GridKind::Cylindrical => 0.5,
     }
 }
 pub fn tol_fd(kind: GridKind) -> f64 {
     match kind {
-        GridKind::Cartesian | GridKind::Cartesian2 | GridKind::Cartesian3 => 1e-5,
+        GridKind::Cartesian | GridKind::Cartesian2 | GridKind::Cartesian3 | GridKind::Periodical2 | GridKind::Periodical3 => 1e-5,
         GridKind::Spherical => 3e-4,
         GridKind::Polar | GridKind::Cylindrical => 2e-2,
     }
@@ -116,6 +116,10 @@ pub struct Case {
     pub kind: GridKind,
     /// (points, length) per axis
     pub axes: Vec<(usize, f64)>,
+    /// cell angles in degrees (periodic grids)
+    pub angles: Vec<f64>,
+    /// exponent of the Lanczos sigma factor of the convolver (`ConvolverFFT::plan(.., lanczos)`)
+    pub lanczos: Option<i32>,
     pub osc: bool,
 }
 
@@ -126,15 +130,18 @@ where
     D::Smaller: Dimension<Larger = D>,
     <D::Larger as Dimension>::Larger: Dimension<Smaller = D::Larger>,
 {
-    let grid = funcs::make_grid_nd(case.kind, &case.axes);
+    let grid = funcs::make_grid_nd(case.kind, &case.axes, &case.angles);
     // flat (row-major) coordinates and integration weights of the grid points
     let (pts, w) = funcs::flat_points(&grid);
     let z: Array1<f64> = pts.iter().map(|p| p[0]).collect();
     let n = pts.len();
     let wf = f.weight_functions(c.t);
-    let conv: Conv<D> = Flat { conv: ConvolverFFT::plan(&grid, &wf, None), shape: case.axes.iter().map(|a| a.0).collect() };
+    let conv: Conv<D> = Flat { conv: ConvolverFFT::plan(&grid, &wf, case.lanczos), shape: case.axes.iter().map(|a| a.0).collect() };
     let length = case.axes[0].1;
     let mut spec = funcs::sample_profile(rng, case.osc, length, c.sigma);
+    if case.kind.periodic() {
+        spec.kind = "periodic";
+    }
     if std::env::var("C17_DILUTE").is_ok() && !case.osc && rng.f64() < 0.3 {
         // (off by default) interface against near-vacuum: the functionals have cut-offs / |.| kinks there (N0_CUTOFF, |lambda|),
         // i.e. points where they are not differentiable, so finite differences are not an oracle; part 1 covers those branches
@@ -142,7 +149,7 @@ where
     }
     let lens: Vec<f64> = case.axes.iter().map(|a| a.1).collect();
     // along the first axis the tanh / oscillating profile, smooth cosine modulation along the others
-    let rho = funcs::density_profile(f.as_ref(), c, &spec, &z) * &funcs::modulation(&pts, &lens);
+    let rho = funcs::density_profile(f.as_ref(), c, &spec, &z) * &funcs::modulation(&pts, &lens, case.kind.periodic());
     let ci = f.component_index().into_owned();
     let nseg = ci.len();
     let bspec = funcs::sample_bump(rng, nseg, length);
@@ -153,7 +160,7 @@ where
     let support: Vec<usize> = (0..n).filter(|k| delta.column(*k).iter().any(|x| *x != 0.0)).collect();
     let mut checks: Vec<Value> = Vec::new();
     let mut failures: Vec<Value> = Vec::new();
-    let ident = json!({"config": c.name, "grid": case.kind.name(), "points": n, "axes(points,length)": case.axes, "length": length, "temperature": c.t,
+    let ident = json!({"config": c.name, "grid": case.kind.name(), "points": n, "axes(points,length)": case.axes, "cell_angles_deg": case.angles, "lanczos": case.lanczos, "length": length, "temperature": c.t,
         "profile": format!("{spec:?}"), "perturbation": format!("{bspec:?}"),
         "perturbation_support_grid_indices": [support.first(), support.last()]});
     let mut record = |name: &str, err: f64, tol: f64, extra: Value| {
@@ -314,7 +321,7 @@ where
             &Moles::from_reduced(Array1::from_vec(rho_b.iter().map(|r| r * v).collect())),
         );
         if let Ok(bulk) = bulk {
-            let profile: DFTProfile<D, F> = DFTProfile::new(grid.clone(), &bulk, None, Some(&Density::from_reduced(conv.up(&rho))), None);
+            let profile: DFTProfile<D, F> = DFTProfile::new(grid.clone(), &bulk, None, Some(&Density::from_reduced(conv.up(&rho))), case.lanczos);
             let hook = std::panic::catch_unwind(std::panic::AssertUnwindSafe(|| profile.verif_delta_functional_derivative(&conv.up(&rho), &conv.up(&delta))));
             if let Ok(Ok(dg)) = hook {
                 let dg = down(&dg);
@@ -380,6 +387,18 @@ where
     json!({"case": ident, "checks": checks, "failures": failures})
 }
 
+/// the convolver option: no Lanczos factor (default of every profile constructor) most of the time, exponent 1 or 2 otherwise
+fn lz(rng: &mut Rng) -> Option<i32> {
+    let u = rng.f64();
+    if u < 0.6 {
+        None
+    } else if u < 0.8 {
+        Some(1)
+    } else {
+        Some(2)
+    }
+}
+
 struct SupportVisitor<'a> {
     cli: &'a Cli,
     search: Option<usize>,
@@ -411,7 +430,7 @@ impl<'a> Visitor for SupportVisitor<'a> {
                     points = p.parse().unwrap();
                 }
                 let length = c.sigma * rng.range(12.0, 16.0);
-                let case = Case { kind, axes: vec![(points, length)], osc: rng.f64() < 0.5 };
+                let case = Case { kind, axes: vec![(points, length)], angles: vec![], lanczos: lz(&mut rng), osc: rng.f64() < 0.5 };
                 let matrix = kind == GridKind::Cartesian && rep == 0 && (full || points == 32);
                 self.results.push(one_case::<Ix1, F>(c, f, &case, &mut rng, matrix));
             }
@@ -424,19 +443,43 @@ impl<'a> Visitor for SupportVisitor<'a> {
                 let case2 = Case {
                     kind: GridKind::Cartesian2,
                     axes: vec![(n0, s * rng.range(7.0, 9.0)), (n1, s * rng.range(5.0, 7.0))],
+                    angles: vec![],
+                    lanczos: lz(&mut rng),
                     osc: rng.f64() < 0.5,
                 };
                 self.results.push(one_case::<Ix2, F>(c, f, &case2, &mut rng, rep == 0));
                 let case3 = Case {
                     kind: GridKind::Cartesian3,
                     axes: vec![(12, s * rng.range(6.0, 7.0)), (8, s * rng.range(4.0, 5.0)), (6, s * rng.range(3.0, 4.0))],
+                    angles: vec![],
+                    lanczos: lz(&mut rng),
                     osc: false,
                 };
                 self.results.push(one_case::<Ix3, F>(c, f, &case3, &mut rng, rep == 0));
+                // periodic unit cells (PeriodicConvolver: complex FFT, own weighted_densities / functional_derivative code),
+                // orthogonal and skewed
+                let casep2 = Case {
+                    kind: GridKind::Periodical2,
+                    axes: vec![(n0, s * rng.range(6.0, 8.0)), (n1, s * rng.range(5.0, 6.0))],
+                    angles: vec![if rng.f64() < 0.3 { 90.0 } else { rng.range(55.0, 125.0) }],
+                    lanczos: lz(&mut rng),
+                    osc: false,
+                };
+                self.results.push(one_case::<Ix2, F>(c, f, &casep2, &mut rng, rep == 0));
+                let casep3 = Case {
+                    kind: GridKind::Periodical3,
+                    axes: vec![(10, s * rng.range(5.0, 6.0)), (8, s * rng.range(4.0, 5.0)), (6, s * rng.range(3.5, 4.0))],
+                    angles: if rng.f64() < 0.3 { vec![90.0; 3] } else { vec![rng.range(75.0, 105.0), rng.range(75.0, 105.0), rng.range(75.0, 105.0)] },
+                    lanczos: lz(&mut rng),
+                    osc: false,
+                };
+                self.results.push(one_case::<Ix3, F>(c, f, &casep3, &mut rng, rep == 0));
                 if full || c.cyl {
                     let casec = Case {
                         kind: GridKind::Cylindrical,
                         axes: vec![(1024, s * rng.range(12.0, 16.0)), (8, s * rng.range(4.0, 5.0))],
+                        angles: vec![],
+                        lanczos: lz(&mut rng),
                         osc: rng.f64() < 0.5,
                     };
                     self.results.push(one_case::<Ix2, F>(c, f, &casec, &mut rng, false));
@@ -450,7 +493,7 @@ pub fn run(cli: &Cli, only: Option<&str>, search: Option<usize>) -> Value {
     let mut v = SupportVisitor { cli, search, results: Vec::new() };
     funcs::for_each_support(cli.full(), only, &mut v);
     json!({"cases": v.results,
-           "tolerances": {"adjoint": {"cartesian(1-3D)": tol_adj(GridKind::Cartesian), "spherical": tol_adj(GridKind::Spherical), "polar/cylindrical": tol_adj(GridKind::Polar)},
-                          "central_difference": {"cartesian(1-3D)": tol_fd(GridKind::Cartesian), "spherical": tol_fd(GridKind::Spherical), "polar/cylindrical": tol_fd(GridKind::Polar)},
+           "tolerances": {"adjoint": {"cartesian(1-3D)/periodic": tol_adj(GridKind::Cartesian), "spherical": tol_adj(GridKind::Spherical), "polar/cylindrical": tol_adj(GridKind::Polar)},
+                          "central_difference": {"cartesian(1-3D)/periodic": tol_fd(GridKind::Cartesian), "spherical": tol_fd(GridKind::Spherical), "polar/cylindrical": tol_fd(GridKind::Polar)},
                           "newton": TOL_NEWTON, "bonds": TOL_BONDS, "matrix": TOL_MATRIX}})
 }
